@@ -3,6 +3,7 @@ CONSTANTS SympyParenthesises = TRUE
  SafeNames = TRUE
  ClassifiesDiscrete = TRUE
  PrintsValueExpressions = FALSE
+          OneListPerVariable = TRUE
           Family = "cex"
 INIT Init
 NEXT Next
